@@ -192,18 +192,7 @@ def check_case(ctx, case):
 
 # ---- known finding: Contentline.parts() placeholder mechanism, predicted exactly by simulation
 def simulate_parts(line):
-    """What parts() returns for a line, per the defect model: escape backslash pairs to %XX, tokenize, unescape each piece.
-    -> ("ok", name, {NAME: value}, value) | ("reject",)"""
-    st = defects.placeholder_escape(line)
-    try:
-        name, params, value = R2.parse(st)
-    except R2.R2Error:
-        return ("reject",)
-    out = {}
-    for k, vals_ in params:
-        vs = [defects.placeholder_unescape(v) for v, _ in vals_]
-        out[defects.placeholder_unescape(k).upper()] = canon(vs)
-    return ("ok", defects.placeholder_unescape(name), out, defects.placeholder_unescape(value))
+    return defects.lenient_parts(line)
 
 
 def classify(case, kind, observed, expected):
